@@ -503,9 +503,16 @@ class IPPO(MultiAgentRLAlgorithm):
         :rtype: ExperiencesType
         """
         shared = {homo_id: {} for homo_id in self.shared_agent_ids}
-        for agent_id, inp in input.items():
+        # Fill every group in the order of self.agent_ids, whatever order the input dictionary
+        # lists the agents in: the dictionaries of one rollout are matched by position afterwards
+        for agent_id in self.agent_ids:
+            if agent_id not in input:
+                continue
+
             homo_id = self.get_homo_id(agent_id)
-            shared[homo_id][agent_id] = stack_experiences(inp, to_torch=False)[0]
+            shared[homo_id][agent_id] = stack_experiences(
+                input[agent_id], to_torch=False
+            )[0]
 
         return shared
 
